@@ -23,6 +23,8 @@ Step ==
         /\ UNCHANGED <<len, persisted, cur>>
      \/ /\ Ev.op = "append" /\ len' = len + Ev.n
         /\ UNCHANGED <<base, persisted, cursor, phase, cur, up>>
+     \/ /\ Ev.op = "append.refused"                          \* a message the log refuses is not in the log: nothing changes,
+        /\ UNCHANGED <<len, base, persisted, cursor, phase, cur, up>>   \* in particular no offset is used up by it
      \/ /\ Ev.op = "handed" /\ up /\ phase = "idle"
         /\ Ev.off = cursor /\ Ev.off < len /\ Ev.off >= base /\ Ev.intact    \* in log order, no gap, entry still there
         /\ phase' = "cb" /\ cur' = Ev.off /\ cursor' = Ev.off + 1
